@@ -88,6 +88,7 @@ pub fn exec(line: &str) -> String {
             }
             compile_op(&text!(name), &srcs, false)
         }
+        ["p_c16h", mode, steps @ ..] => build_history(mode, steps),
         ["p_c16", name, rest @ ..] => {
             let mut srcs = Vec::new();
             for h in rest {
@@ -402,6 +403,101 @@ fn compile_op(name: &str, srcs: &[String], check: bool) -> String {
         }
     };
     let _ = std::fs::remove_dir_all(&base);
+    out
+}
+
+/// A history of `compile_json` requests into ONE output directory. Step syntax `namehex:src,src,..`
+/// (`!` = a path that does not exist). Mode `pre`: every source file is written before the first
+/// request (so all sources are older than any output); `lazy`: a step's sources are written just
+/// before it. After every step the directory must hold, for each collection name, the header plus
+/// the text returned by the last successful request for that name, and nothing else.
+fn build_history(mode: &str, steps: &[&str]) -> String {
+    use std::collections::BTreeMap;
+    use std::sync::atomic::{AtomicU64, Ordering};
+    static N: AtomicU64 = AtomicU64::new(0);
+    let base = std::env::temp_dir().join(format!("verif_hist_{}_{}", std::process::id(), N.fetch_add(1, Ordering::Relaxed)));
+    let src_dir = base.join("src");
+    let out_dir = base.join("out");
+    std::fs::create_dir_all(&src_dir).unwrap();
+    std::fs::create_dir_all(&out_dir).unwrap();
+    let mut parsed: Vec<(String, Vec<(std::path::PathBuf, Option<String>)>)> = Vec::new();
+    for (i, st) in steps.iter().enumerate() {
+        let Some((n, srcs)) = st.split_once(':') else { return "bad-op".into() };
+        let Some(name) = unhex_str(n) else { return "bad-op".into() };
+        let mut files = Vec::new();
+        if !srcs.is_empty() {
+            for (j, h) in srcs.split(',').enumerate() {
+                if h == "!" {
+                    files.push((src_dir.join(format!("missing_{i}_{j}")), None));
+                } else {
+                    let Some(t) = unhex_str(h) else { return "bad-op".into() };
+                    files.push((src_dir.join(format!("s{i}_{j}.json")), Some(t)));
+                }
+            }
+        }
+        parsed.push((name, files));
+    }
+    let write_sources = |files: &[(std::path::PathBuf, Option<String>)]| {
+        for (p, t) in files {
+            if let Some(t) = t {
+                std::fs::write(p, t).unwrap();
+            }
+        }
+    };
+    if mode == "pre" {
+        for (_, files) in &parsed {
+            write_sources(files);
+        }
+    }
+    // SAFETY: operations run sequentially in this process
+    unsafe { std::env::set_var("OUT_DIR", &out_dir) };
+    let snapshot = |d: &std::path::Path| -> BTreeMap<String, String> {
+        let mut m = BTreeMap::new();
+        if let Ok(rd) = std::fs::read_dir(d) {
+            for e in rd.filter_map(|e| e.ok()) {
+                m.insert(e.file_name().to_string_lossy().to_string(), std::fs::read_to_string(e.path()).unwrap_or_default());
+            }
+        }
+        m
+    };
+    let mut expected: BTreeMap<String, String> = BTreeMap::new();
+    let mut results = Vec::new();
+    let mut verdict = String::new();
+    for (k, (name, files)) in parsed.iter().enumerate() {
+        if mode != "pre" {
+            write_sources(files);
+        }
+        let leaked: &'static str = Box::leak(name.clone().into_boxed_str());
+        let paths: Vec<std::path::PathBuf> = files.iter().map(|(p, _)| p.clone()).collect();
+        let r = std::panic::catch_unwind(std::panic::AssertUnwindSafe(|| json_shape_build::compile_json(leaked, &paths)));
+        match r {
+            Ok(Ok(text)) => {
+                results.push("ok");
+                expected.insert(format!("{name}.gen.shape.rs"), format!("// Generated `JsonShape` file.\nuse serde;\n\n{text}"));
+            }
+            Ok(Err(_)) => results.push("err"),
+            Err(_) => results.push("panic"),
+        }
+        let now = snapshot(&out_dir);
+        if verdict.is_empty() && now != expected {
+            let bad: Vec<&String> = now.keys().chain(expected.keys()).filter(|f| now.get(*f) != expected.get(*f)).collect();
+            verdict = format!(
+                "violated: after request {} ({}) the directory is not {{name ↦ header + last returned text}}: differs at {:?}",
+                k + 1,
+                results[k],
+                bad
+            );
+        }
+    }
+    let fin = snapshot(&out_dir);
+    let _ = std::fs::remove_dir_all(&base);
+    if !verdict.is_empty() {
+        return verdict;
+    }
+    let mut out = format!("steps {} |", results.join(" "));
+    for (f, c) in &fin {
+        out.push_str(&format!(" {}={}", hex(f.as_bytes()), hex(c.as_bytes())));
+    }
     out
 }
 
